@@ -15,7 +15,8 @@ EXPLANATION = (
     'missing values raises; (WEIGHT) a per-RDM weight vector is expanded along the RDM axis before it is multiplied with '
     'the (RDM, pair) array, and weights of missing entries are masked; (VBLOCK) the whitened slow path cuts rows and '
     'columns of V with one and the same mask. Equality with the entry-deleted computation and convergence of rescale are '
-    'NOT decided.')
+    'NOT decided.'
+    ' Also: (VBLOCK) the raw get_v(..) never reaches a linear solve uncut (missing entries are deleted from V, not zero-filled).')
 ASSUMPTIONS = ['RDMs of one stack share their NaN pattern (first row is representative), as the parsers assume',
                'numpy nan* reducers ignore NaN']
 FLOOR = 20
